@@ -79,6 +79,21 @@ def unwrap_elem(I, v, elem):
     raise OutsideSubset(f"cannot put {v!r} into a sequence of {elem!r}")
 
 
+def sv(v):
+    """read-only view: the symbolic sequence held by an SList"""
+    return v.sym if isinstance(v, SList) else v
+
+
+def seq_term(I, v, elem):
+    """z3 Seq term of a list-like value (concrete list, SList, Sym seq)"""
+    v = sv(I.force(v))
+    if isinstance(v, Sym) and v.kind == "seq":
+        return v.t
+    if isinstance(v, (list, tuple)):
+        return list_to_seq(I, list(v), elem)
+    raise OutsideSubset(f"not a list: {v!r}")
+
+
 def is_immutable(v):
     if v is None or isinstance(v, (int, float, str, bytes, bool, Sym, EnumVal, ClassRef, BuiltinClass, FuncRef, External, ModuleRef, NativeFn, frozenset, SymCallable)):
         return True
@@ -89,7 +104,7 @@ def is_immutable(v):
 
 # ----------------------------------------------------------------------------- truthiness / equality
 def truth(I, v):
-    v = I.force(v)
+    v = sv(I.force(v))
     if v is None:
         return False
     if isinstance(v, bool):
@@ -135,6 +150,9 @@ def kind_of(v):
 
 def py_eq(I, a, b):
     a, b = I.force(a), I.force(b)
+    if a is b and isinstance(a, SList):
+        return True
+    a, b = sv(a), sv(b)
     if a is b:
         if not isinstance(a, float):
             return True
@@ -294,7 +312,7 @@ def is_(I, a, b):
 
 
 def contains(I, container, x, node):
-    c = I.force(container)
+    c = sv(I.force(container))
     x = I.force(x)
     if isinstance(c, (list, tuple, set, frozenset)):
         return or_any([py_eq(I, x, y) for y in c])
@@ -327,7 +345,7 @@ def contains(I, container, x, node):
 
 # ----------------------------------------------------------------------------- arithmetic
 def binop(I, op, a, b, node):
-    a, b = I.force(a), I.force(b)
+    a, b = sv(I.force(a)), sv(I.force(b))
     ka, kb = kind_of(a), kind_of(b)
     concrete = not isinstance(a, Sym) and not isinstance(b, Sym)
     if concrete and not isinstance(a, (SObj, list, dict)) and not isinstance(b, (SObj,)):
@@ -379,12 +397,12 @@ def binop(I, op, a, b, node):
     if isinstance(op, ast.Mod) and ka == "str":
         raise OutsideSubset("% string formatting")
     if ka == "seq" and kb == "seq" and isinstance(op, ast.Add) and a.elem == b.elem:
-        return Sym(z3.Concat(a.t, b.t), "seq", a.elem)
+        return SList(Sym(z3.Concat(a.t, b.t), "seq", a.elem))
     if (ka == "seq" and isinstance(b, list) or kb == "seq" and isinstance(a, list)) and isinstance(op, ast.Add):
         elem = a.elem if ka == "seq" else b.elem
         x = a.t if ka == "seq" else list_to_seq(I, a, elem)
         y = b.t if kb == "seq" else list_to_seq(I, b, elem)
-        return Sym(z3.Concat(x, y), "seq", elem)
+        return SList(Sym(z3.Concat(x, y), "seq", elem))
     # operator overloading on repository objects
     names = {ast.Add: ("__add__", "__radd__"), ast.Sub: ("__sub__", "__rsub__"), ast.Mult: ("__mul__", "__rmul__"),
              ast.BitOr: ("__or__", "__ror__"), ast.BitAnd: ("__and__", "__rand__"), ast.Mod: ("__mod__", "__rmod__")}.get(type(op))
@@ -414,7 +432,7 @@ class NotImplementedVal:
 
 # ----------------------------------------------------------------------------- sequences
 def length(I, v, node=None):
-    v = I.force(v)
+    v = sv(I.force(v))
     if isinstance(v, (str, bytes, list, tuple, dict, set, frozenset)):
         return len(v)
     if isinstance(v, Sym) and v.kind in ("str", "seq"):
@@ -441,7 +459,7 @@ def norm_index(I, k, n_term, n_conc=None):
 
 
 def getitem(I, o, k, node):
-    o = I.force(o)
+    o = sv(I.force(o))
     k = I.force(k)
     if isinstance(o, (list, tuple, str, bytes)):
         if isinstance(k, bool) or isinstance(k, int):
@@ -516,7 +534,7 @@ def slice_bounds(I, lo, hi, n):
 
 
 def getslice(I, o, lo, hi, step, node):
-    o = I.force(o)
+    o = sv(I.force(o))
     lo, hi, step = I.force(lo), I.force(hi), I.force(step)
     if step is not None and step != 1:
         if isinstance(o, (list, tuple, str, bytes)) and all(x is None or isinstance(x, int) for x in (lo, hi, step)):
@@ -627,7 +645,7 @@ def make_set(I, items, node):
 
 def iterate(I, v, node, comp=None):
     """concrete list of the items of v (v must have a concrete spine)"""
-    v = I.force(v)
+    v = sv(I.force(v))
     if isinstance(v, (list, tuple)):
         return list(v)
     if isinstance(v, (str,)):
@@ -656,7 +674,7 @@ def symbolic_comprehension(I, e, env, module, cls):
     if len(e.generators) != 1 or e.generators[0].ifs or not isinstance(e.generators[0].target, ast.Name):
         return None
     it = I.eval(e.generators[0].iter, env, module, cls)
-    it_f = I.force(it)
+    it_f = sv(I.force(it))
     if not (isinstance(it_f, Sym) and it_f.kind == "seq"):
         return None
     var = e.generators[0].target.id
@@ -717,6 +735,8 @@ def call_opaque_method(I, obj, method, args):
 def type_name(v):
     if v is None:
         return "NoneType"
+    if isinstance(v, SList):
+        return "list"
     if isinstance(v, Sym):
         return {"int": "int", "bool": "bool", "str": "str", "bytes": "bytes", "seq": "list"}.get(v.kind, str(v.elem))
     if isinstance(v, SObj):
@@ -809,6 +829,9 @@ def getattr_(I, o, name, node=None):
     bm = builtin_method(I, o, name)
     if bm is not None:
         return bm
+    pyt = {"str": str, "int": int, "bool": bool, "bytes": bytes, "seq": list}.get(kind_of(o)) or (type(o) if isinstance(o, (list, dict, tuple, set, frozenset, float)) else list if isinstance(o, SList) else None)
+    if pyt is not None and hasattr(pyt, name):
+        raise OutsideSubset(f"{pyt.__name__}.{name} is not modelled (line {getattr(node, 'lineno', '?')})")
     raise PyRaise(ExcValue("AttributeError", (f"'{type_name(o)}' object has no attribute '{name}'",)))
 
 
@@ -874,7 +897,7 @@ def isinstance_(I, v, c):
         if n == "bytes":
             return k == "bytes"
         if n == "list":
-            return isinstance(v, list) or k == "seq"
+            return isinstance(v, (list, SList)) or k == "seq"
         if n == "tuple":
             return isinstance(v, tuple)
         if n == "dict":
